@@ -112,6 +112,14 @@ def lookups(tracks) -> dict:
     return out
 
 
+def lookup_keys(tracks) -> dict:
+    """Every key of the two lookup dictionaries, empty entries included (strict form)."""
+    ann = getattr(tracks, "track_annotator", None)
+    if ann is None:
+        return {}
+    return {"tracklets": sorted(ann.tracklet_id_to_nodes.keys()), "lineages": sorted(ann.lineage_id_to_nodes.keys())}
+
+
 def registry(tracks) -> dict:
     f = tracks.features
     return {
@@ -144,11 +152,14 @@ def full_snapshot(tracks) -> dict:
         "ndim": tracks.ndim,
         "registry": registry(tracks),
         "lookups": lookups(tracks),
+        "lookup_keys": lookup_keys(tracks),
         "history": (tuple(id(a) for a in hist.undo_stack), tuple(id(a) for a in hist.redo_stack)),
     }
 
 
-def full_diff(a: dict, b: dict, ignore_node_order: bool = True) -> str | None:
+def full_diff(a: dict, b: dict, ignore_node_order: bool = True, strict_lookups: bool = False) -> str | None:
+    if strict_lookups and a.get("lookup_keys") != b.get("lookup_keys"):
+        return f"lookup dictionaries gained/lost keys: {a.get('lookup_keys')} -> {b.get('lookup_keys')}"
     ra, rb = a["raw"], b["raw"]
     if set(ra["nodes"]) != set(rb["nodes"]):
         return (f"node sets differ: removed={sorted(set(ra['nodes']) - set(rb['nodes']))} "
